@@ -256,7 +256,11 @@ def run(ctx):
         r = [fmt(ir.unwrap(e["expr"].get("e"))) for _, _, e in f.roots() if e["expr"].get("k") == "return"]
         good = {"(%s.find(%s, 0) == 0)" % (a, b), "(%s.rfind(%s, 0) == 0)" % (a, b), "(%s.compare(0, %s.size(), %s) == 0)" % (a, b, b), "(%s.compare(0, %s.length(), %s) == 0)" % (a, b, b)}
         wrong = {"(%s.find(%s, 0) != std::basic_string<char>::npos)" % (a, b), "(%s.find(%s, 0) >= 0)" % (a, b), "(%s.rfind(%s, std::basic_string<char>::npos) == 0)" % (a, b)}
-        if len(r) == 1 and r[0] in good:
+        # `full.size() >= beginning.size() && <core>`: the guard only states what the core implies
+        mg = re.fullmatch(r"\(\((%s\.(?:size|length)\(\) >= %s\.(?:size|length)\(\)|%s\.(?:size|length)\(\) <= %s\.(?:size|length)\(\))\) && (.+)\)" % (re.escape(a), re.escape(b), re.escape(b), re.escape(a)), r[0]) if len(r) == 1 else None
+        if mg and mg.group(2) in good:
+            ctx.ok("R17.4", f, "prefix-idiom", r[0], f)
+        elif len(r) == 1 and r[0] in good:
             ctx.ok("R17.4", f, "prefix-idiom", r[0], f)
         elif len(r) == 1 and r[0] in wrong:
             ctx.bad("R17.4", f, "prefix-idiom", "starts_with is %s: true for an occurrence anywhere, not only at position 0" % r[0], f)
